@@ -76,6 +76,10 @@ func literalFacts(sp *Spec) []string {
 				out = append(out, fmt.Sprintf("(assert (= (strbyte %d %d) %d))", code, i, lit[i]))
 			}
 		}
+		if sp.Symbols["dv"] && lit == "" {
+			// NewDecFromString maps the empty string to "0"
+			out = append(out, fmt.Sprintf("(assert (and (decvalid %d) (= (dv %d) 0.0) (= (places %d) 0)))", code, code, code))
+		}
 		if sp.Symbols["dv"] && decimalLit.MatchString(lit) {
 			r, ok := new(big.Rat).SetString(lit)
 			if ok {
@@ -123,6 +127,9 @@ func (s *Session) Query(o *Obligation) string {
 	b.WriteString("(check-sat)\n")
 	return b.String()
 }
+
+// KeepFiles: keep the SMT files of discharged obligations (debugging only).
+var KeepFiles = false
 
 type solverSpec struct {
 	name string
@@ -174,6 +181,9 @@ func (s *Session) Discharge(o *Obligation, dir string, sec int, idx int, cross b
 	q := s.Query(o)
 	file := filepath.Join(dir, fmt.Sprintf("o%05d.smt2", idx))
 	os.WriteFile(file, []byte(q), 0o644)
+	if !KeepFiles {
+		defer os.Remove(file)
+	}
 	var total int64
 	for i, sv := range solvers {
 		sec2 := sec
